@@ -96,6 +96,9 @@ type gen struct {
 	// membership focus (swarm): this run is mostly about tokens joining and
 	// leaving teams and teams/organisations being deleted under them
 	memberFocus bool
+	// tree focus: organisations > teams > roles > measurement permissions are
+	// built up and then torn down by cascading deletes
+	treeFocus bool
 }
 
 func mustJ(v any) json.RawMessage {
@@ -361,6 +364,9 @@ func (g *gen) rbacOp() {
 	if g.memberFocus {
 		c = []int{0, 3, 3, 5, 5, 2, 11, 11, 11, 11, 11, 12, 12, 12, 6, g.r.Intn(13)}[g.r.Intn(16)]
 	}
+	if g.treeFocus {
+		c = []int{0, 3, 3, 6, 6, 6, 9, 9, 9, 9, 9, 8, 8, 5, 2, 10, g.r.Intn(13)}[g.r.Intn(17)]
+	}
 	// build hierarchies in short logs: a child create without any known parent usually becomes a parent create
 	need := func(l []int64, parentKind int) {
 		if len(l) == 0 && g.r.Chance(75) {
@@ -478,6 +484,9 @@ func genPlan(prop string) func(r *simrt.Rand, tier string) any {
 		if r.Chance(15) {
 			g.memberFocus = true
 			wNode, wFile, wTok, wRBAC, wBad = 3, 2, 25, 68, 2
+		} else if r.Chance(12) {
+			g.treeFocus = true
+			wNode, wFile, wTok, wRBAC, wBad = 3, 2, 5, 88, 2
 		}
 		tot := wNode + wFile + wTok + wRBAC + wBad
 		for g.n = 0; g.n < n; g.n++ {
@@ -511,8 +520,16 @@ func genPlan(prop string) func(r *simrt.Rand, tier string) any {
 			// events here mean Snapshot() at At, Persist() after Delay more entries.
 			nrep = 0
 			var rep Rep
-			for j, m := 0, r.Intn(3); j < m && L > 0; j++ {
-				rep.Ev = append(rep.Ev, Ev{At: r.Intn(L), K: "snap", Delay: 1 + r.Intn(4)})
+			m := r.Intn(3)
+			if g.treeFocus || g.memberFocus {
+				m = 1 + r.Intn(2)
+			}
+			for j := 0; j < m && L > 0; j++ {
+				at := r.Intn(L)
+				if (g.treeFocus || g.memberFocus) && L >= 6 {
+					at = L/3 + r.Intn(L/3+1) // build-up before, tear-down after
+				}
+				rep.Ev = append(rep.Ev, Ev{At: at, K: "snap", Delay: 1 + r.Intn(4)})
 			}
 			if len(rep.Ev) > 0 {
 				p.Reps = append(p.Reps, rep)
